@@ -594,6 +594,54 @@ def d8(chk, prog):
                         witness=dict(chain=eff.chain(qn, p, root)))
 
 
+def d11(chk, prog):
+    chk.clause("D11", "the `reference` command line: every accepted spelling of -x / --sample-sex reaches do_reference as that sex; -y, the PAR genome and the correction switches as given")
+    from .. import argmodel
+    fi = prog.fn("cnvlib.commands._cmd_reference")
+    ps = argmodel.parser_of(prog, "_cmd_reference")
+    opt = ps.opt("sample_sex")
+    if not isinstance(opt.choices, (tuple, list)) or not opt.choices:
+        raise AnalysisError("reference --sample-sex declares no literal choices")
+    tb = Table(chk, "sex-shift-table", f"_cmd_reference on the namespace argparse builds: -x in {list(opt.choices)} or absent, x -y, x --no-gc / --no-edge / --no-rmask", fi.loc(), fi.qn)
+    fnames = ["b.targetcoverage.cnn", "a.targetcoverage.cnn", "a.antitargetcoverage.cnn", "b.antitargetcoverage.cnn"]
+    for choice, male_ref, flags in itertools.product([None] + list(opt.choices), [False, True], [(), ("--no-gc",), ("--no-edge", "--no-rmask")]):
+        W.reset()
+        argv = list(fnames) + ["-f", "genome.fa", "--diploid-parx-genome", "grch38"] + (["-x", choice] if choice else []) + (["-y"] if male_ref else []) + list(flags)
+        model = Model()
+        model.attr_hooks.append(argmodel.ns_hook)
+        seen = {}
+
+        def do_ref(it, *a, seen=seen, **k):
+            fd = prog.fn("cnvlib.reference.do_reference")
+            names = [x.arg for x in fd.node.args.args]
+            defaults = dict(zip(names[len(names) - len(fd.node.args.defaults):], [ast.literal_eval(d) for d in fd.node.args.defaults]))
+            b = dict(defaults)
+            b.update(zip(names, a))
+            b.update(k)
+            seen["call"] = b
+            return "REF"
+        model.prims["cnvlib.reference.do_reference"] = do_ref
+        model.prims["cnvlib.core.ensure_path"] = lambda it, f: True
+        model.prims["skgenome.tabio.write"] = lambda it, *a, **k: seen.setdefault("written", a[0])
+        model.ext["os.path.isdir"] = lambda it, p_: False
+        it = Interp(prog, model)
+
+        def go():
+            ns = argmodel.parse(ps, argv)
+            return ("done", it.run(fi.qn, [ns]))
+        out = tb.guard(go, " ".join(argv[4:]))
+        if out is None:
+            continue
+        b = seen.get("call") or {}
+        want_sex = None if choice is None else (choice.lower() in ("f", "x", "female"))
+        ok = seen.get("written") == "REF" and b.get("female_samples") is want_sex and b.get("is_haploid_x_reference") is male_ref and b.get("diploid_parx_genome") == "grch38" \
+            and b.get("fa_fname") == "genome.fa" and b.get("do_gc") is ("--no-gc" not in flags) and b.get("do_edge") is ("--no-edge" not in flags) and b.get("do_rmask") is ("--no-rmask" not in flags) \
+            and sorted(b.get("target_fnames") or []) == sorted(f for f in fnames if "antitarget" not in f) and sorted(b.get("antitarget_fnames") or []) == sorted(f for f in fnames if "antitarget" in f)
+        tb.cell(ok, dict(command_line=" ".join(argv[4:]), do_reference={k: repr(v) for k, v in b.items() if k in ("female_samples", "is_haploid_x_reference", "diploid_parx_genome", "do_gc", "do_edge", "do_rmask")},
+                         want_female_samples=want_sex))
+    tb.done("a stated sample sex (or -y / the PAR genome / a correction switch) does not reach do_reference as given: the samples are shifted as the other sex")
+
+
 def run(chk):
     prog = chk.prog
     chk.trust("Python grammar via ast", "boolean-mask stores / numpy broadcasting (absmodel.py)", "str.count counts non-overlapping occurrences of one character")
@@ -607,9 +655,12 @@ def run(chk):
     d7(chk, prog)
     d8(chk, prog)
     d9(chk, prog)
+    d11(chk, prog)
     chk.clause("D10", "each sample is centred on its covered autosomal bins before pooling: center_all (C15-D1 rule)")
-    from . import C15
+    from . import C15, C19
     C15.d1(chk, prog)
+    # the estimators bound in D5 are Tukey's biweight location / midvariance (C19-D6 rule: literal vectors against the published formula)
+    C19.d6(chk, prog, names=("biweight_location", "biweight_midvariance"))
 
 
 _R = "cnvlib/reference.py"
